@@ -5,6 +5,7 @@ import (
 	"encoding/json"
 	"errors"
 	"fmt"
+	"hash/fnv"
 	"math/big"
 	"math/rand"
 	"os"
@@ -146,8 +147,24 @@ var c27Corpus = []string{
 	"vars {\n  number $n\n  account $who\n  string $why\n}\nset_tx_meta(\"sum\", $n + 1 - 2)\nset_account_meta($who, \"why\", $why)\nset_account_meta($who, \"n\", $n)\n",
 	// 30 nested destinations
 	"send [COIN 1000] (\n  source = @world\n  destination = {\n    1/2 to {\n      max [COIN 100] to @a\n      remaining to {\n        1/3 to @b\n        2/3 to @c\n      }\n    }\n    1/2 to @d\n  }\n)\n",
+	// 32 two balances of the same account, spent from @world and into allotments
+	"vars {\n  monetary $a = balance(@alice, COIN)\n  monetary $b = balance(@alice, USD/2)\n}\nsend $a (\n  source = @world\n  destination = {\n    1/2 to @bob\n    remaining kept\n  }\n)\nsend $b (\n  source = {\n    max $b from @alice\n    @world\n  }\n  destination = @bob\n)\n",
 	// 31 meta + balance + overdraft + save combined
 	"vars {\n  account $user\n  account $fees = meta($user, \"fees_account\")\n  portion $rate = meta($fees, \"rate\")\n  monetary $avail = balance($user, EUR/2)\n}\nsave [EUR/2 100] from $user\nsend $avail (\n  source = $user\n  destination = {\n    $rate to $fees\n    remaining kept\n  }\n)\nset_account_meta($user, \"last\", $avail)\n",
+}
+
+// c27FixedInvalid: inputs that do not compile, always included (origin "fixed-invalid").
+var c27FixedInvalid = []string{
+	"print @\r\n",
+	"",
+	"\n\n",
+	"vars {\n}\nfail\n",
+	"send [COIN 1] (\n  source = @world\n  destination = @a\n",
+	"/* unterminated",
+	"send [COIN 1] (\r\n  source = @world\r\n  destination = @\r\n)\r\n",
+	"print \"\\q\"\n",
+	"send [COIN 1] (\n  source = {\n    50% from @a\n    60% from @b\n  }\n  destination = @c\n)\n",
+	"vars {\n  account $a\n  account $a\n}\nfail\n",
 }
 
 var c27Vocabulary = []string{
@@ -207,6 +224,9 @@ type c27Input struct {
 func c27GenInput(rng *rand.Rand, idx int) c27Input {
 	if idx < len(c27Corpus) {
 		return c27Input{text: c27Corpus[idx], origin: "corpus"}
+	}
+	if idx < len(c27Corpus)+len(c27FixedInvalid) {
+		return c27Input{text: c27FixedInvalid[idx-len(c27Corpus)], origin: "fixed-invalid"}
 	}
 	if rng.Intn(5) == 0 { // raw inputs
 		n := rng.Intn(200)
@@ -282,7 +302,9 @@ func c27GenInput(rng *rand.Rand, idx int) c27Input {
 			c27ReplaceMatching(rng, toks, func(t string) bool { return t != "" && t[0] >= '0' && t[0] <= '9' && !strings.ContainsAny(t, "/%") }, c27EdgeNumbers)
 		case 8:
 			kind = "edge-portion"
-			c27ReplaceMatching(rng, toks, func(t string) bool { return strings.ContainsAny(t, "%") || (t != "" && t[0] >= '0' && t[0] <= '9' && strings.Contains(t, "/")) }, c27EdgePortions)
+			c27ReplaceMatching(rng, toks, func(t string) bool {
+				return strings.ContainsAny(t, "%") || (t != "" && t[0] >= '0' && t[0] <= '9' && strings.Contains(t, "/"))
+			}, c27EdgePortions)
 		case 9:
 			kind = "edge-asset"
 			c27ReplaceMatching(rng, toks, func(t string) bool { return t != "" && t[0] >= 'A' && t[0] <= 'Z' }, c28AssetLiterals)
@@ -511,9 +533,13 @@ func (s c27Store) GetBalances(_ context.Context, q vm.BalanceQuery) (vm.Balances
 		accs = append(accs, a)
 	}
 	sort.Strings(accs)
-	rng := rand.New(rand.NewSource(s.seed))
 	for _, acc := range accs {
 		for _, asset := range q[acc] {
+			// the answer is a pure function of (plan seed, account, asset): the order in
+			// which the machine builds its query (Go map iteration) must not matter
+			h := fnv.New64a()
+			fmt.Fprintf(h, "%d|%s|%s", s.seed, acc, asset)
+			rng := rand.New(rand.NewSource(int64(h.Sum64() >> 1)))
 			mode := s.plan.balanceMode
 			if mode == "mixed" {
 				mode = []string{"rich", "zero", "negative", "huge", "missing", "small"}[rng.Intn(6)]
@@ -763,6 +789,9 @@ func c27Execute(c *core.Case, r *core.Run, in c27Input, prog *program.Program, p
 		var res *vm.Result
 		var rerr error
 		if p := c27Guard("vm.Run", func() { res, rerr = vm.Run(m2, vm.RunScript{Metadata: plan.runMeta}) }); p != nil {
+			if strings.Contains(p.stack, "vm.(*Machine).Execute(") {
+				p.entry = "Execute" // vm.Run only wraps Execute: same finding as on the stage-by-stage path
+			}
 			return report(p)
 		}
 		r.Count("vm_run_calls", 1)
@@ -790,7 +819,7 @@ func runC27(r *core.Run) {
 	r.Floor("compile_error", 3000)
 	r.Floor("executions_ok", 2000)
 	r.Floor("corpus_programs_compiled", int64(len(c27Corpus)))
-	r.Floor("origins", 7)
+	r.Floor("origins", 8)
 	r.Floor("mutation_kinds", 20)
 	r.Floor("execution_error_classes", 25)
 
